@@ -607,7 +607,13 @@ func (mgr *Manager) invalidateTags(updatedStreams, resetStreams, addedStreams bi
 			//TODO: is a matching stream really uncertain?
 			tin.Uncertain = mgr.allStreams
 		} else if ti.features.MainFeatures&^query.FeatureFilterID == 0 {
-			continue
+			// id filters do not depend on the stream data, but unless the tag is a list of
+			// marked streams its id ranges can match streams that were added later
+			if strings.HasPrefix(tn, "mark/") || strings.HasPrefix(tn, "generated/") || addedStreams.IsZero() {
+				continue
+			}
+			tin.Uncertain = ti.Uncertain.Copy()
+			tin.Uncertain.Or(addedStreams)
 		} else {
 			tin.Uncertain = ti.Uncertain.Copy()
 			tin.Uncertain.Or(addedStreams)
